@@ -216,6 +216,28 @@ def dist_point_cell(p, cell):
     return best
 
 
+def dist_points_cell(P, cell):
+    """Vectorised dist_point_cell for an (N,3) array of points."""
+    cell = np.asarray(cell, float)
+    P = np.asarray(P, float).reshape(-1, 3)
+    best = np.full(len(P), np.inf)
+    for act in itertools.product((None, 0.0, 1.0), repeat=3):
+        free = [k for k in range(3) if act[k] is None]
+        s0 = np.array([0.0 if a is None else a for a in act])
+        base = s0 @ cell
+        if free:
+            A = cell[free]  # nfree x 3
+            pinv = np.linalg.pinv(A.T)  # nfree x 3
+            sol = (P - base[None, :]) @ pinv.T  # N x nfree
+            ok = np.all((sol >= -1e-12) & (sol <= 1 + 1e-12), axis=1)
+            d = np.linalg.norm(sol @ A + base[None, :] - P, axis=1)
+            d[~ok] = np.inf
+        else:
+            d = np.linalg.norm(base[None, :] - P, axis=1)
+        best = np.minimum(best, d)
+    return best
+
+
 # ---------------------------------------------------------------- periodic bonding graph
 def rank_int(vs):
     M = [[Fraction(int(x)) for x in v] for v in vs]
